@@ -743,7 +743,8 @@ theorem ring_lifetime_values_repaired {α : Type} (v : VRing α) (x d : α) :
 /-- ring_lifetime_exactly_once: construct `igris::ring<T>(n)` for ANY `n` with
 `n + 1 < 2^32` and run ANY script of `push`/`emplace` (also `push(head_place())`,
 the argument aliasing the slot), `pop`, `clear`, `resize`,
-copy construction and move construction (carrying on with the new object) —
+copy construction, move construction and copy assignment to another ring
+(`unbounded_array::operator=`), carrying on with the new object —
 contract-respecting or not: push on a full ring, pop on an empty one included —
 and let the last object go out of scope.  Then no operation faults, and
 * no object was ever constructed over a living object (`overLive = 0`),
@@ -763,10 +764,10 @@ theorem ring_lifetime_exactly_once {α : Type} (dflt : α) (n : Nat) (hn : n + 1
   obtain ⟨h1, h2, h3, h4, h5⟩ := VRing.invalidate_good g
   exact ⟨v, e, g.live, h1, h2, h3, h4, h5⟩
 
-example : ∀ op ∈ [VOp.push (1 : Int), .pushSelf, .pop, .pop, .clear, .resize 5, .copy, .move], op.ok := by
+example : ∀ op ∈ [VOp.push (1 : Int), .pushSelf, .pop, .pop, .clear, .resize 5, .copy, .move, .assign 3], op.ok := by
   intro op h
   simp only [List.mem_cons, List.not_mem_nil, or_false] at h
-  rcases h with rfl | rfl | rfl | rfl | rfl | rfl | rfl | rfl <;> simp [VOp.ok]
+  rcases h with rfl | rfl | rfl | rfl | rfl | rfl | rfl | rfl | rfl <;> simp [VOp.ok]
 
 /-- what one `push` / `pop` does to the objects: in a ring whose slots all live,
 exactly one object is destroyed and exactly one is constructed (in the same slot),
@@ -1110,5 +1111,45 @@ theorem cyclic_buffer_index_exact {α : Type} (c : Cyclic α) (n : Nat) (log : L
     rw [hprev i hlt, hprev _ hlt2, key]
 
 example : CInv (Cyclic.mk' (0 : Int) 3) 3 [] := cinv_mk' 0 3 (by decide)
+
+/-! ## 24. round 3: cyclic_buffer in `int` arithmetic; `size_t` lengths of igris::ring::write -/
+
+/-- in every state of a cyclic buffer of `n ≤ INT_MAX` samples the `int` arithmetic
+of `push` (`ring_counter_increment(&counter, 1)`) never overflows and `operator[](i)`
+never does for `0 ≤ i`: there the unbounded-integer model `Cyclic.push` / `Cyclic.nth`
+(of `cyclic_buffer_nth`) IS the C arithmetic. -/
+theorem cyclic_buffer_int_safe {α : Type} (c : Cyclic α) (n : Nat) (log : List α) (h : CInv c n log)
+    (hn : n ≤ 2147483647) (i : Int) (hi : inInt i) :
+    rcIncrementC c.counter 1 = some (rcIncrement c.counter 1) ∧
+    (0 ≤ i → rcPrevC c.counter i = some (rcPrev c.counter i)) := by
+  obtain ⟨k, hk, hkn⟩ := h.cnt
+  have hpos := h.pos
+  have hs : 0 < c.counter.size := by rw [h.sz]; omega
+  have hsI : inInt c.counter.size := by rw [h.sz]; unfold inInt; omega
+  obtain ⟨e1, -, -, -, -⟩ := ring_counter_int_exact c.counter hs hsI 1 (by decide)
+  obtain ⟨-, e2, -, -, -⟩ := ring_counter_int_exact c.counter hs hsI i hi
+  refine ⟨?_, fun h0 => ?_⟩
+  · rw [e1, if_pos]; rw [hk]; unfold inInt; omega
+  · rw [e2, if_pos]; rw [hk]; unfold inInt at hi ⊢; omega
+
+/-- `igris::ring<T>::write(buf, sz)` hands the `size_t sz` to an `unsigned int`
+parameter: it is `ring_write` of the whole data IFF-side `sz < 2^32`; a request of
+`2^32 + k` elements is served as a request of `k` (model only: needs a source of
+more than 4 GiB; the return value tells the caller). -/
+theorem ring_typed_write_width {α : Type} (t : TRing α) (d : List α) (k : Nat) :
+    (d.length < 2 ^ 32 →
+      t.writeC d = (ringWrite t.r t.buf d).map fun (r', b', n) => (⟨r', b'⟩, n)) ∧
+    (k < 2 ^ 32 → d.length = 2 ^ 32 + k →
+      t.writeC d = (ringWrite t.r t.buf (d.take k)).map fun (r', b', n) => (⟨r', b'⟩, n)) := by
+  constructor
+  · intro h
+    unfold TRing.writeC
+    rw [Nat.mod_eq_of_lt h, List.take_of_length_le (Nat.le_refl _)]
+  · intro hk hl
+    unfold TRing.writeC
+    have : d.length % 2 ^ 32 = k := by omega
+    rw [this]
+
+example : inInt (0 : Int) := by decide
 
 end Igris.C03
